@@ -180,6 +180,11 @@ class Board:
             self.count('hosterr.Hang')
         except NotImplementedError as e:
             name, site = exc_site(e)
+            if not M.nie_declared(e):
+                # not one of the explicitly unimplemented hooks: a host-level failure like any other
+                rec['exc'] = ('NotImplementedError', site, 'NotImplementedError raised outside the declared-unimplemented hooks')
+                core.dead = True
+                self.count('hosterr.NotImplementedError@%s' % site)
             rec['nie'] = site
             self.count('nie.' + site)
             # documented "unimplemented": the board skips the instruction like a NOP
